@@ -164,9 +164,23 @@ SplitFC(f, ks) ==
                !.prefs = [s \in 1 .. f.ns + ks |-> IF s = 1 THEN f.prefs[1] ELSE IF s <= ks + 1 THEN <<>> ELSE f.prefs[s - ks]],
                !.ranks = [s \in 1 .. f.ns + ks |-> IF s = 1 THEN f.ranks[1] ELSE IF s <= ks + 1 THEN <<>> ELSE f.ranks[s - ks]],
                !.lprefs = [l \in 1 .. f.nl |-> [i \in DOMAIN f.lprefs[l] |-> SplitNum(f.lprefs[l][i], ks)]] ]
+(* CROWD embedding (3-agent files): a NEGATIVE second component -kd adds kd students ns+1 .. ns+kd whose only    *)
+(* choice is a new project np+1 of upper quota 0 offered by lecturer 1; with second-side lists lecturer 1 ranks  *)
+(* them after everybody else, strictly.  They can never be assigned and never block (the project is full with    *)
+(* nobody in it), so the admissible matchings are those of the core with kd unassigned students appended - but   *)
+(* lecturer 1's list is LONG.                                                                                    *)
+CrowdFC(f, kd) ==
+    LET top == IF f.lists /\ f.lranks[1] # <<>> THEN MaxSeq0(f.lranks[1]) ELSE 0 IN
+    [ f EXCEPT !.ns = f.ns + kd, !.np = f.np + 1,
+               !.prefs = [s \in 1 .. f.ns + kd |-> IF s <= f.ns THEN f.prefs[s] ELSE <<f.np + 1>>],
+               !.ranks = [s \in 1 .. f.ns + kd |-> IF s <= f.ns THEN f.ranks[s] ELSE <<1>>],
+               !.plq = Append(f.plq, 0), !.puq = Append(f.puq, 0), !.plec = Append(f.plec, 1),
+               !.lprefs = IF f.lists THEN [f.lprefs EXCEPT ![1] = @ \o [i \in 1 .. kd |-> f.ns + i]] ELSE f.lprefs,
+               !.lranks = IF f.lists THEN [f.lranks EXCEPT ![1] = @ \o [i \in 1 .. kd |-> top + i]] ELSE f.lranks ]
 ShiftFC(f, sh) ==
     LET ks == sh[1]  kp == sh[2]  kl == IF f.na = 2 THEN sh[2] ELSE sh[3] IN
     IF ks < 0 THEN SplitFC(f, 0 - ks) ELSE
+    IF sh[2] < 0 THEN CrowdFC(f, 0 - sh[2]) ELSE
     IF ks = 0 /\ kp = 0 /\ kl = 0 THEN f ELSE
     [ na |-> f.na, ns |-> f.ns + ks, np |-> f.np + kp, nl |-> f.nl + kl,
       prefs |-> [s \in 1 .. f.ns + ks |-> IF s <= ks THEN <<>> ELSE ShiftSeq(f.prefs[s - ks], kp)],
@@ -223,6 +237,7 @@ SolvesBounded == phase \in {"solving", "solved"} /\ ~opts.bf => k <= NSolves(ins
 Text == Render(fc, StyleOf(style), block)
 
 FamilyWellFormed == phase = "ready" => WellFormed(inst)
+PosLosesNothing  == phase = "ready" /\ inst.ns <= 4 => Feasible(inst, opts.pc, opts.stab) = FeasibleAll(inst, opts.pc, opts.stab)
 FamilyShaped     == phase = "ready" => Shaped(inst)      \* C10 only: numbers as written, in any order
 ReadRender   == phase = "ready" /\ CheckText => ParseFile(Text, opts.na, opts.twopl) = inst
 OptionsRefine == Built => MechRefinesDefs(opts.flags, opts.twopl, opts.stab)
